@@ -12,6 +12,7 @@
        nk      : Nat,       \* number of TLV types the kind knows (all optional)
        tid     : TidClass,  \* class of the 2-byte message type
        fixed   : {"complete","truncated","badvalue"},
+       inner   : InnerClass,\* a length-prefixed region inside the fixed part vs what it contains
        recs    : Seq(TlvRec),
        tail    : {"none","partial_type","type_only","partial_len","excess","garbage"} ]
    tail: what follows the last complete record -- nothing, a started record cut inside its type,
@@ -34,6 +35,18 @@ EXTENDS Integers, Sequences, FiniteSets
 TidClass  == {"known", "unknown_even", "unknown_odd", "custom_even", "custom_odd"}
 FixedClass == {"complete", "truncated", "badvalue"}
 TailClass == {"none", "partial_type", "type_only", "partial_len", "excess", "garbage"}
+(* Inner declared lengths (node_announcement addrlen, prevtx_len, witness lengths, encoded_short_ids,
+   u16-prefixed data / padding / script / onion blobs).  The declared length is compared with the
+   self-delimiting elements the region contains:
+     "none"         not manipulated,
+     "boundary"     the region ends exactly on an element boundary (canonical),
+     "retained"     the region is longer than the elements this version parses and the rest is data
+                    the format retains verbatim (unknown address descriptor) (canonical),
+     "overrun"      an element starts inside the region and ends beyond it, or the region extends
+                    beyond the message,
+     "mismatch"     a region that must be filled exactly (prevtx, witness, 8-byte id list) is not,
+     "short_opaque" an opaque region declared shorter: the following fields shift (no claim). *)
+InnerClass == {"none", "boundary", "retained", "overrun", "mismatch", "short_opaque"}
 EncClass  == {"min", "nonmin_type", "nonmin_len"}     \* BigSize encodings of the record header
 FitClass  == {"exact", "overrun"}                     \* declared length vs bytes that remain
 ValClass  == {"ok", "bad"}                            \* value of a known type in / out of range
@@ -83,6 +96,9 @@ Judge(m) ==
   ELSE IF m.tid \in {"unknown_even", "custom_even"} THEN <<"reject", "unknown_even_type">>
   ELSE IF m.fixed = "truncated" THEN <<"reject", "short_fixed">>
   ELSE IF m.fixed = "badvalue" THEN <<"reject", "bad_fixed_value">>
+  ELSE IF m.inner = "overrun" THEN <<"reject", "inner_overrun">>
+  ELSE IF m.inner = "mismatch" THEN <<"reject", "inner_mismatch">>
+  ELSE IF m.inner = "short_opaque" THEN <<"any", "inner_shift">>
   ELSE IF ~m.tlvkind THEN
          \* no TLV stream: bytes after the fixed part are either retained (gossip excess data) or
          \* of no concern to the property
@@ -115,6 +131,8 @@ RuleVerdict(m) ==
   ELSE IF m.tid \in {"unknown_odd", "custom_odd"} THEN "ignore"
   ELSE IF m.tid # "known" THEN "reject"
   ELSE IF m.fixed # "complete" THEN "reject"
+  ELSE IF m.inner \in {"overrun", "mismatch"} THEN "reject"     \* never read past a declared length
+  ELSE IF m.inner = "short_opaque" THEN "any"
   ELSE IF m.tlvkind THEN (IF ~StreamClean(m.recs) THEN "reject"
                           ELSE IF m.tail = "none" THEN "accept"
                           ELSE IF m.tail = "garbage" THEN "any" ELSE "reject")
@@ -127,11 +145,13 @@ Present(recs) == {KnownIdx(recs[i].t) : i \in {k \in 1..Len(recs) : IsKnown(recs
    "unknown" (wire::read surfaced Unknown(type), which the peer handler turns into ignore/error by
    parity), "ignore"/"reject" at the peer level (connection kept / dropped).
    exp: the engine could construct the value the shape denotes; eq: decoded = that value;
-   rt: decode(encode(decoded)) = decoded. *)
-Conforms(m, level, obs, exp, eq, rt, over) ==
+   rt: decode(encode(decoded)) = decoded;  canon: encode(decoded) = the input bytes, required when the
+   shape says the input is canonical and (cexp) the unmanipulated encoding re-encodes to itself. *)
+Canonical(m) == m.inner \in {"boundary", "retained"}
+Conforms(m, level, obs, exp, eq, rt, over, cexp, canon) ==
   /\ ~over
   /\ LET v == Verdict(m) IN
-     CASE v = "accept" -> obs = "accept" /\ (exp => eq) /\ rt
+     CASE v = "accept" -> obs = "accept" /\ (exp => eq) /\ rt /\ ((Canonical(m) /\ cexp) => canon)
        [] v = "reject" -> \/ obs = "reject"
                           \/ (level = "wire" /\ m.tid \in {"unknown_even", "custom_even"} /\ obs = "unknown")
        [] v = "ignore" -> \/ (level = "wire" /\ obs = "unknown")
